@@ -10,6 +10,7 @@ Level: partial (DESIGN §4-C15, §8). The theorems are about footprints: the Go 
 -/
 import KinModel.Conc
 import KinModel.ConcCase
+import KinModel.ConcSlice
 import KinModel.Gen.SharedWrites
 import KinModel.Lemmas.C15
 namespace KinModel.Conc
@@ -84,6 +85,100 @@ theorem plain_write_schedule_dependent :
     readsOf 1 sigma0 [(0, .write 0 9), (1, .read 0)] ≠ readsOf 1 sigma0 [(1, .read 0), (0, .write 0 9)] := by
   decide
 
+/-! ## A′. slices of the shared document: `append` aliases through spare capacity -/
+
+/-- Appending to a shared slice that is FULL (cap = len: a clipped slice `s[:n:n]`, or a decoded list of 1, 2, 4, 8 …
+    elements) only reads shared memory: the elements are copied into an array nobody else holds. -/
+theorem append_full_only_reads (arr : Nat → Cell) (h : Hdr) (vs : List Val) (hf : h.cap ≤ h.len) (hne : vs ≠ []) :
+    ∀ a ∈ appendActs arr h vs, isRead a = true := by
+  intro a ha
+  have hlen : 0 < vs.length := List.length_pos_iff.mpr hne
+  simp only [appendActs, hne, if_false] at ha
+  rw [if_neg (by omega)] at ha
+  obtain ⟨d, rfl, _, _⟩ := mem_readsFrom arr _ _ a ha
+  rfl
+
+/-- With room for the new elements, the first of them is STORED, unsynchronised, at index `len` of the shared
+    backing array. -/
+theorem append_spare_writes_shared (arr : Nat → Cell) (h : Hdr) (v : Val) (vs : List Val)
+    (hs : h.len + (v :: vs).length ≤ h.cap) : Act.write (arr h.len) v ∈ appendActs arr h (v :: vs) := by
+  have hs' : h.len + (vs.length + 1) ≤ h.cap := by simpa using hs
+  simp [appendActs, hs', writesFrom]
+
+/-- `append` on a shared slice is a clean footprint exactly when there is nothing to append or no room for it. -/
+theorem append_clean_iff (k : Cfg) (arr : Nat → Cell) (h : Hdr) (vs : List Val) (hnc : ∀ j, arr j ∉ k.cache) :
+    (∀ a ∈ appendActs arr h vs, cleanAct k a = true) ↔ (vs = [] ∨ h.cap < h.len + vs.length) := by
+  constructor
+  · intro hall
+    cases vs with
+    | nil => exact Or.inl rfl
+    | cons v vs =>
+      refine Or.inr (Nat.lt_of_not_le fun hs => ?_)
+      have := hall _ (append_spare_writes_shared arr h v vs hs)
+      simp [cleanAct] at this
+  · rintro (rfl | hlt) a ha
+    · simp [appendActs] at ha
+    · by_cases hne : vs = []
+      · subst hne; simp [appendActs] at ha
+      · simp only [appendActs, hne, if_false] at ha
+        rw [if_neg (by omega)] at ha
+        obtain ⟨d, rfl, _, _⟩ := mem_readsFrom arr _ _ a ha
+        simpa [cleanAct] using hnc d
+
+/-- Two calls that append to the same shared slice with spare capacity race — from every state, whatever they append. -/
+theorem append_spare_races (arr : Nat → Cell) (h : Hdr) (v1 v2 : Val) (σ : State) (hs : h.len < h.cap) :
+    RaceIn (events σ ((appendActs arr h [v1]).map (fun a => (0, a)) ++ (appendActs arr h [v2]).map (fun a => (1, a)))) := by
+  have h1 : h.len + 1 ≤ h.cap := hs
+  rw [← raceInB_iff]
+  simp [appendActs, h1, writesFrom, events, stepAcc, raceInB, conflict]
+
+/-- … and the element a call reads back through its appended slice is the OTHER call's when that one stored in
+    between: the call is judged against parameters that are not its own. -/
+theorem append_spare_schedule_dependent (arr : Nat → Cell) (h : Hdr) (v1 v2 : Val) (σ : State) (hv : v1 ≠ v2) :
+    readsOf 0 σ [(0, .write (arr h.len) v1), (1, .write (arr h.len) v2), (0, .read (arr h.len))]
+      ≠ solo σ [.write (arr h.len) v1, .read (arr h.len)] := by
+  simp [readsOf, solo, stepObs, stepState, consObs, Ne.symm hv]
+
+/-- The decoder's growth rule leaves room exactly after 3, 5-7, 9-15 elements (all lists up to 16 elements). -/
+theorem decoded_spare_capacity_small :
+    (List.range 17).filter spareCap = [3, 5, 6, 7, 9, 10, 11, 12, 13, 14, 15] := by decide
+
+/-- A decoded slice is never shorter than its content (all n). -/
+theorem decoded_cap_ge (n : Nat) : n ≤ decodedCap n := decodedCap_ge n
+
+/-- ValidateRequest with its two parameter loops merged into one loop over
+    `append(pathItemParameters, operationParameters...)` (footprint: the append on the path item's decoded slice,
+    then a range over the result): clean exactly when the operation has no parameters of its own or they do not
+    fit into the spare capacity of the path item's list — e.g. 3 path-level parameters and 1 own parameter do fit. -/
+theorem merged_parameter_loops_clean_iff (k : Cfg) (i n : Nat) (own : List Val) (hnc : ∀ j, sliceCell i j ∉ k.cache) :
+    (∀ a ∈ appendActs (sliceCell i) (itemHdr n) own ++ rangeActs (sliceCell i) n, cleanAct k a = true)
+      ↔ (own = [] ∨ decodedCap n < n + own.length) := by
+  have key := append_clean_iff k (sliceCell i) (itemHdr n) own hnc
+  simp only [itemHdr] at key
+  rw [← key]
+  constructor
+  · intro hall a ha; exact hall a (List.mem_append_left _ ha)
+  · intro hall a ha
+    rcases List.mem_append.mp ha with ha | ha
+    · exact hall a ha
+    · obtain ⟨d, rfl, _, _⟩ := mem_readsFrom (sliceCell i) _ _ a ha
+      simpa [cleanAct] using hnc d
+
+/-- the merged loop on a path item with THREE path-level parameters (decoded cap 4), two operations with one own
+    parameter each (7 and 8), validated concurrently: a data race, and the first call reads the second's parameter -/
+theorem merged_parameter_loops_three :
+    outcomeOf 2 ((appendActs (sliceCell 0) (itemHdr 3) [7]).map (fun a => (0, a)) ++
+                 (appendActs (sliceCell 0) (itemHdr 3) [8]).map (fun a => (1, a)) ++
+                 (rangeActs (sliceCell 0) 4).map (fun a => (0, a)) ++ (rangeActs (sliceCell 0) 4).map (fun a => (1, a)))
+      = ⟨true, true, false⟩ := by decide
+
+/-- … with FOUR path-level parameters (decoded cap 4) the same code is harmless: why no test noticed. -/
+theorem merged_parameter_loops_four :
+    outcomeOf 2 ((appendActs (sliceCell 0) (itemHdr 4) [7]).map (fun a => (0, a)) ++
+                 (appendActs (sliceCell 0) (itemHdr 4) [8]).map (fun a => (1, a)) ++
+                 (rangeActs (sliceCell 0) 4).map (fun a => (0, a)) ++ (rangeActs (sliceCell 0) 4).map (fun a => (1, a)))
+      = specOutcome := by decide
+
 /-! ## B. the regenerated footprint table -/
 
 /-- The translator could read every write it met. -/
@@ -93,6 +188,12 @@ theorem table_recognised : ∀ w ∈ Gen.sharedWrites, rowClass w ≠ .unread :=
     is synchronised (sync.Map / mutex / once), or a nil-guarded re-initialisation of a cell that its
     declaration / the constructor initialises, or caller-owned per-call output. -/
 theorem footprint_clean : ∀ w ∈ Gen.sharedWrites, rowOK w = true := by decide
+
+/-- No reachable function appends to (or edits in place: slices.Insert/Delete/Compact…) a slice of the shared
+    document, router or a package-level variable, unless the slice is clipped to its length (`s[:n:n]`,
+    slices.Clip) or the append is synchronised: `append` stores into the shared backing array whenever the slice
+    has spare capacity (theorems of part A′). -/
+theorem no_append_into_shared_slices : ∀ w ∈ Gen.sharedWrites, rowClass w ≠ .appendSpare := by decide
 
 /-- The footprint denoted by the table is clean for the configuration denoted by the table. -/
 theorem table_acts_clean :
